@@ -221,12 +221,15 @@ class LDAWrapper(LinearSolver):
                 # Remove all previous components that are already in the database (orthogonalize)
                 xadd = xnew[isel, i]
                 badd = (A @ xnew[..., i])[isel, ...]
+                bnrm0 = np.linalg.norm(badd)
                 for x, b in zip(x_data, b_data):
                     beta = badd @ b.conj() / (b.conj() @ b)
                     badd = badd - beta * b
                     xadd = xadd - beta * x
                 bnrm = np.linalg.norm(badd)
-                if not np.isfinite(bnrm) or bnrm == 0:
+                # Skip vectors that are (numerically) linearly dependent on the database, e.g. dependent columns
+                # within one block of right-hand sides: after normalization they would only contain rounding noise
+                if not np.isfinite(bnrm) or bnrm <= 1e-10 * bnrm0:
                     continue
                 badd /= bnrm
                 xadd /= bnrm
